@@ -97,6 +97,15 @@ def notify_wait(g, objs, ntasks, body):
         return [f"n_notified {n}"]
     if x < 45:
         return [f"t_poll_once n_notified {n}"]
+    if x < 55:
+        # two registered waiters, one of them is dropped after a notify_one may have reached it (F14 shape)
+        a, b = ("h0", "h1") if r.chance(1, 2) else ("h1", "h0")
+        out = [f"n_new {n} {a}", f"n_new {n} {b}", f"n_enable {n} {a}", f"n_enable {n} {b}"]
+        if r.chance(1, 2):
+            out.append(f"n_notify_one {n}")
+        out += _filler(g, objs)
+        out += [f"n_drop {n} {a}", f"n_await {n} {b}"]
+        return out
     h = f"h{r.below(3)}"
     out = [f"n_new {n} {h}"]
     if r.chance(2, 3):
